@@ -261,7 +261,21 @@ class Session:
 
     # ---- rules
     def do_build(self, i):
-        self._get(self._q(i))
+        q = self._q(i)
+        try:
+            self._get(q)
+        except Exception as e:
+            # building a query must not depend on the history either
+            try:
+                ref = reference(q["id"], (self.ctx.versions[0], self.ctx.versions[1]))["plan"]
+            except Exception:
+                self.ref_unavailable += 1
+                return
+            if ref[0] == "error":
+                return
+            self.failures.append(Failure("history-dependent", f"building {q['id']} after {len(self.history)} steps raised {type(e).__name__}: {e}; alone in a fresh interpreter it is planned", exc=e,
+                                         extra={"bucket_hint": f"build:{q['id'].split('-')[0]}", "history": list(self.history)}).record())
+            raise AssertionError(self.failures[-1]["detail"])
 
     def do_observe(self, i, w):
         q = self._q(i)
@@ -439,7 +453,7 @@ HAND = [
 
 
 def systematic(tier):
-    n = 24 if tier == "quick" else 600
+    n = 24 if tier == "quick" else 240
     return [{"hand": i} for i in range(len(HAND))] + [{"machine_seed": i} for i in range(n)]
 
 
